@@ -27,8 +27,10 @@ ASSUMPTIONS = ['after a timeout the abandoned student thread is joined (<= 3 s) 
                'the sys.modules baseline is taken after one warm-up execution of the benign modes so that lazy imports by pedal '
                'itself are not counted',
                'nested executions (an instructor helper installed with mock_function that calls student code while a run is active) are '
-               'generated in one thread only, without timeouts and without injected faults: the property lists nested imports, the nested '
-               'call is an extension taken from a seeded change']
+               'generated with an unthreaded outer execution and without injected faults (the inner call may be threaded and time out, then '
+               'without a tracer: one tracing session entered from two threads is outside what the tracer classes support); '
+               'an outer execution that is itself threaded while a nested one is active is not generated: the property lists nested '
+               'imports, the nested call is an extension taken from a seeded change']
 MIN_NONTRIVIAL = {'quick': 30, 'thorough': 30}
 
 HELPER = 'def helper_value():\n    return 7\nprint("helper loaded")\n'
@@ -180,8 +182,6 @@ class ChildState:
                     sb.threaded = True
                 sb.tracer_style = op['tracer']
                 mode, entry = op['mode'], op['entry']
-                if entry == 'nested' and mode in ('busy-loop', 'block-forever'):
-                    entry = 'call'
                 if mode == 'block-forever' and op['tracer'] == 'coverage':
                     self.blocked_under_coverage = True
                 what = '%s(%s, threaded=%s, tracer=%s)' % (entry, mode, sb.threaded, op['tracer'])
@@ -203,8 +203,23 @@ class ChildState:
                     # an instructor helper (mock_function) that itself calls student code on the same sandbox while the outer run is active
                     # (same thread: nested executions that each start their own timeout thread are not generated, see ASSUMPTIONS)
                     sb.threaded = False
-                    what = '%s(%s, threaded=%s, tracer=%s)' % (entry, mode, sb.threaded, op['tracer'])
-                    sb.mock_function('ask_inner', lambda m: sb.call('finish', m))
+                    inner_threaded = mode in ('busy-loop', 'block-forever')     # the inner call gets its own thread and runs out of time
+                    if inner_threaded:
+                        sb.tracer_style = 'none'     # two threads inside one tracing session: not generated (see ASSUMPTIONS)
+                    what = '%s(%s, outer threaded=False, inner threaded=%s, tracer=%s)' % (entry, mode, inner_threaded, op['tracer'])
+                    self.nested_mismatch = None
+
+                    def ask_inner(m):
+                        # the inner call is a call like any other: what it borrowed is back when it returns or raises,
+                        # i.e. the outer execution's own patches are in force again
+                        snap = lambda: (id(sys.stdout), id(time.sleep), len(sb._current_patches), len(sb._current_stdout), id(sys.modules.get('pedal')))
+                        before = snap()
+                        try:
+                            return sb.call('finish', m, threaded=inner_threaded)
+                        finally:
+                            if snap() != before:
+                                self.nested_mismatch = 'stdout/sleep/stack depths/module table before the inner call %r, after it %r' % (before, snap())
+                    sb.mock_function('ask_inner', ask_inner)
                     try:
                         sb.run('print("outer before")\nask_inner(%r)\nprint("outer after")\n' % mode, filename='answer.py')
                     finally:
@@ -248,6 +263,9 @@ class ChildState:
                 sb.__dict__.pop(name, None)
         self.quiesce()
         viol = self.check('%s [%s]' % (what, outcome))
+        if kind == 'exec' and getattr(self, 'nested_mismatch', None):
+            viol.append(('C05|nested-call-did-not-restore-outer-state', 'during %s: %s' % (what, self.nested_mismatch)))
+            self.nested_mismatch = None
         if kind == 'real_io' and op.get('allow'):
             return viol   # with real I/O allowed the probe text goes to the real stdout by design
         if not getattr(self, 'must_exit', False):
